@@ -277,6 +277,11 @@ func (c *cse) opUnlock(u *user, o opt) {
 	}
 	kind := "unlock-" + mode
 	dirty := p != "" && c.isDirty(u, p)
+	absent := false
+	if p != "" {
+		_, err := os.Lstat(filepath.Join(u.dir, p))
+		absent = err != nil
+	}
 	sub, arg := "", p
 	if p != "" {
 		sub, arg = c.cwdFor(p)
@@ -331,6 +336,16 @@ func (c *cse) opUnlock(u *user, o opt) {
 	var fixed []string
 	for _, l := range released {
 		fixed = append(fixed, l.Path)
+	}
+	if absent && target != nil {
+		c.count("unlocks_of_file_absent_from_worktree", 1)
+		if len(released) > 0 {
+			c.count("unlocks_of_absent_file_confirmed_by_server", 1)
+			u.absentUnlocked[p] = true
+			if !res.OK() {
+				c.count("unlocks_of_absent_file_confirmed_but_exit_nonzero", 1)
+			}
+		}
 	}
 	c.observe(u, kind, fixed)
 }
@@ -541,23 +556,51 @@ func (c *cse) editFile(u *user, p string, stage bool) {
 	}
 }
 
+// choosePresent prefers a path that exists in the work tree (writing to an absent one would add it to the branch).
+func (c *cse) choosePresent(u *user, wantFree, wantForeign, wantOwn int) string {
+	p := ""
+	for try := 0; try < 4; try++ {
+		p = c.choosePath(u, wantFree, wantForeign, wantOwn)
+		if _, err := os.Lstat(filepath.Join(u.dir, p)); err == nil || c.coin(20) {
+			break
+		}
+	}
+	return p
+}
+
 func (c *cse) opEdit(u *user, o opt) {
 	n := 1 + c.pick(2)
 	for i := 0; i < n; i++ {
 		p := o.path
 		if p == "" || i > 0 {
-			p = c.choosePath(u, 20, 40, 35)
+			p = c.choosePresent(u, 20, 40, 35)
 		}
 		c.editFile(u, p, c.coin(30))
 	}
 	c.observe(u, "edit", nil)
 }
 
+// opRemove deletes a file from the work tree without committing (an uncommitted change: the unlock
+// guard applies; with --force the unlock hits a file that is absent from the work tree).
+func (c *cse) opRemove(u *user, o opt) {
+	p := o.path
+	if p == "" {
+		p = c.choosePresent(u, 15, 15, 65)
+	}
+	if err := os.Remove(filepath.Join(u.dir, p)); err == nil {
+		c.note(u, "aux-rm", "rm", p)
+		u.dirty[p] = true
+		c.count("worktree_files_removed", 1)
+	}
+	c.kinds["remove"] = true
+	c.observe(u, "remove", nil)
+}
+
 func (c *cse) opCommit(u *user, o opt) {
 	if len(u.dirty) == 0 || o.path != "" {
 		p := o.path
 		if p == "" {
-			p = c.choosePath(u, 20, 40, 35)
+			p = c.choosePresent(u, 20, 40, 35)
 		}
 		c.big = o.big
 		c.editFile(u, p, false)
@@ -828,7 +871,7 @@ func (c *cse) prefix() []step {
 	p := lockables[c.pick(len(lockables))]
 	a, b := c.pick(2), 0
 	b = 1 - a
-	kind := []int{0, 0, 0, 1, 1, 2, 2, 3, 3, 3}[c.pick(10)]
+	kind := []int{0, 0, 0, 1, 1, 2, 2, 3, 3, 5, 5, 6, 6}[c.pick(13)]
 	big := false
 	switch {
 	case c.flavor == "odd-path":
@@ -863,6 +906,15 @@ func (c *cse) prefix() []step {
 		return guard
 	case 2: // verifiable listing while both hold locks, then a hook run
 		return []step{{a, "lock", opt{path: p}}, {b, "lock", opt{}}, {a, "locksverify", opt{mode: "json"}}, {a, "checkout", opt{mode: "branch"}}}
+	case 5: // unlock of a file that exists on the other branch only, then the checkout that brings it back
+		q := []string{"only-main.dat", "only-main.txt"}[c.pick(2)]
+		um := []string{"path", "id", "force-path", "force-id"}[c.pick(4)]
+		if c.coin(35) { // the other user breaks the lock from a branch without the file
+			return []step{{a, "lock", opt{path: q}}, {b, "checkout", opt{mode: "branch"}}, {b, "unlock", opt{path: q, mode: []string{"force-path", "force-id"}[c.pick(2)]}}, {b, "checkout", opt{mode: "branch"}}, {a, "checkout", opt{mode: "branch"}}, {a, "checkout", opt{mode: "branch"}}}
+		}
+		return []step{{a, "lock", opt{path: q}}, {a, "checkout", opt{mode: "branch"}}, {a, "unlock", opt{path: q, mode: um}}, {a, "checkout", opt{mode: "branch"}}, {a, "locklocal", opt{}}}
+	case 6: // file removed from the work tree without committing: guard, then --force, then restore
+		return []step{{a, "lock", opt{path: p}}, {a, "remove", opt{path: p}}, {a, "unlock", opt{path: p, mode: []string{"path", "id"}[c.pick(2)]}}, {a, "unlock", opt{path: p, mode: []string{"force-path", "force-id"}[c.pick(2)]}}, {a, "checkout", opt{mode: "all"}}}
 	case 4: // oddly named path: guard, then hook runs of the owner and of the other user on that path
 		return append(guard, step{a, "commit", opt{path: p}}, step{b, "commit", opt{path: p}}, step{a, "unlock", opt{path: p, mode: "path"}}, step{a, "commit", opt{path: p}})
 	}
@@ -878,13 +930,13 @@ func (c *cse) randomStep(prev int) step {
 		op string
 		n  int
 	}
-	ws := []w{{"lock", 15}, {"unlock", 15}, {"locks", 4}, {"locksverify", 8}, {"lockslocal", 2}, {"lockscached", 4}, {"checkout", 8}, {"edit", 9}, {"commit", 12}, {"merge", 7}, {"push", 18}}
+	ws := []w{{"lock", 15}, {"unlock", 15}, {"locks", 4}, {"locksverify", 8}, {"lockslocal", 2}, {"lockscached", 4}, {"checkout", 10}, {"edit", 9}, {"remove", 3}, {"commit", 12}, {"merge", 7}, {"push", 18}}
 	tot := 0
 	for _, x := range ws {
 		tot += x.n
 	}
 	k := c.pick(tot)
-	if c.t1Later && !c.t1Used && len(c.table()) <= c.page && c.coin(50) {
+	if c.t1Later && !c.t1Used && len(c.table()) <= c.page && c.coin(75) {
 		k = 0 // a second page needs more than page-size locks
 	}
 	op := "lock"
@@ -932,6 +984,10 @@ func (c *cse) do(s step) {
 		c.opCheckout(u, s.o)
 	case "edit":
 		c.opEdit(u, s.o)
+	case "remove":
+		c.opRemove(u, s.o)
+	case "locklocal":
+		c.opLocksLocal(u, s.o)
 	case "commit":
 		c.opCommit(u, s.o)
 	case "merge":
